@@ -361,6 +361,8 @@ func (c12Stream) Impl(c Case) string {
 		atomic.AddInt32(&onCloseBegun, 1)
 		if p["slowclose"] == "1" || p["kind"] == "acceptRace" {
 			time.Sleep(40 * time.Millisecond)
+		} else if ms := atoi(p["slowclose"]); ms > 1 {
+			time.Sleep(time.Duration(ms) * time.Millisecond) // an application callback that takes seconds: Stop waits for it
 		}
 		atomic.AddInt32(&onCloseDone, 1)
 	}
